@@ -215,6 +215,9 @@ func genOp(t *verifsim.Tape) op {
 		}
 	case opLoadDoc:
 		n := t.Intn(13)
+		if t.Intn(8) == 7 {
+			n = 60 + t.Intn(80) // a large document
+		}
 		for i := 0; i < n; i++ {
 			o.doc = append(o.doc, t.Intn(len(pool)))
 			o.layout = append(o.layout, t.Intn(len(layouts)))
